@@ -108,6 +108,39 @@ impl Stats {
     }
 }
 
+/// violations recorded so far in this process (property, seed, tier are in WATCHDOG_CTX): lets the
+/// watchdog report what was already found when a later family does not finish
+pub static FOUND: Mutex<Vec<Violation>> = Mutex::new(Vec::new());
+pub static WATCHDOG_CTX: Mutex<Option<(String, u64, String)>> = Mutex::new(None);
+
+fn write_replay(out_dir: &str, property: &str, seed: u64, tier: &str, v: &Violation) -> String {
+    let body = json!({"property": property, "family": v.family, "case": v.case, "message": v.message, "seed": seed, "tier": tier});
+    let name = format!("{}_{}_{:016x}.json", property, v.family, fp(&serde_json::to_string(&v.case).unwrap_or_default()));
+    let path = format!("{}/replays/{}", out_dir, name);
+    std::fs::create_dir_all(format!("{}/replays", out_dir)).ok();
+    std::fs::write(&path, serde_json::to_string_pretty(&body).unwrap()).ok();
+    path
+}
+
+/// called by the watchdog thread: report what was found before the stall; exit 1 if anything was,
+/// otherwise exit 2 (inconclusive)
+pub fn watchdog_fire(limit: u64) -> ! {
+    let out_dir = std::env::var("VERIF_OUT_DIR").unwrap_or_else(|_| VERIF_DIR.to_string());
+    let found: Vec<Violation> = FOUND.lock().map(|g| g.clone()).unwrap_or_default();
+    let ctx = WATCHDOG_CTX.lock().ok().and_then(|g| g.clone());
+    if let (Some((prop, seed, tier)), false) = (ctx, found.is_empty()) {
+        for v in found.iter().take(20) {
+            let path = write_replay(&out_dir, &prop, seed, &tier, v);
+            println!("VIOLATION property={} replay={}", prop, path);
+            println!("  family={} : {}", v.family, v.message.replace('\n', " | "));
+        }
+        eprintln!("HARNESS WATCHDOG: a later family did not finish within {} s; the violations found before that are reported above (no evidence file written)", limit);
+        std::process::exit(1);
+    }
+    eprintln!("HARNESS WATCHDOG: check did not finish within {} s - inconclusive, no verdict", limit);
+    std::process::exit(2);
+}
+
 #[derive(Clone, Debug)]
 pub struct Violation {
     pub family: String,
@@ -149,6 +182,9 @@ impl Ctx {
         let workers = std::env::var("VERIF_WORKERS").ok().and_then(|s| s.parse().ok()).unwrap_or_else(|| {
             std::thread::available_parallelism().map(|n| n.get()).unwrap_or(8).min(16)
         });
+        if let Ok(mut g) = WATCHDOG_CTX.lock() {
+            *g = Some((property.to_string(), seed, tier.name().to_string()));
+        }
         Ctx {
             property: property.to_string(),
             tier,
@@ -198,8 +234,11 @@ impl Ctx {
         self.stats.merge(st);
     }
     pub fn violation(&mut self, family: &str, case: Value, message: String) {
-        // a known finding suppresses exactly the cases its signature matches
-        self.violations.push(Violation { family: family.to_string(), case, message });
+        let v = Violation { family: family.to_string(), case, message };
+        if let Ok(mut g) = FOUND.lock() {
+            g.push(v.clone());
+        }
+        self.violations.push(v);
     }
     pub fn known_hit(&mut self, id: &str, what: &str) {
         let e = self.known_hits.entry(id.to_string()).or_insert((what.to_string(), 0));
@@ -236,10 +275,7 @@ pub fn finish(ctx: Ctx) -> i32 {
     std::fs::create_dir_all(format!("{}/evidence", out_dir)).ok();
     let mut vio_out = vec![];
     for (i, v) in ctx.violations.iter().enumerate() {
-        let body = json!({"property": ctx.property, "family": v.family, "case": v.case, "message": v.message, "seed": ctx.seed, "tier": ctx.tier.name()});
-        let name = format!("{}_{}_{:016x}.json", ctx.property, v.family, fp(&serde_json::to_string(&v.case).unwrap_or_default()));
-        let path = format!("{}/replays/{}", out_dir, name);
-        std::fs::write(&path, serde_json::to_string_pretty(&body).unwrap()).ok();
+        let path = write_replay(&out_dir, &ctx.property, ctx.seed, ctx.tier.name(), v);
         if i < 20 {
             println!("VIOLATION property={} replay={}", ctx.property, path);
             println!("  family={} : {}", v.family, v.message.replace('\n', " | "));
@@ -423,6 +459,9 @@ where
             continue;
         }
         if seen.insert(serde_json::to_string(&v.case).unwrap_or_default()) {
+            if let Ok(mut g) = FOUND.lock() {
+                g.push(v.clone());
+            }
             ctx.violations.push(v);
         }
     }
@@ -476,7 +515,11 @@ where
             ctx.harness_errors.push(format!("{}: {}", family, m));
             continue;
         }
-        ctx.violations.push(Violation { family: family.to_string(), case: to_case(i), message: m });
+        let v = Violation { family: family.to_string(), case: to_case(i), message: m };
+        if let Ok(mut g) = FOUND.lock() {
+            g.push(v.clone());
+        }
+        ctx.violations.push(v);
     }
     if exhaustive {
         ctx.exhaustive_parts.push(format!("{} ({} cases, complete)", family, total));
